@@ -302,8 +302,23 @@ func UTF8String(t *rapid.T, label string, maxRunes int, full bool) string {
 var identRunes = []rune("abcdefXYZ0189_.-")
 var identUnicode = []rune{0xe9, 0x416, 0x4e2d, 0x663, 0x301}
 
+// WideNames makes Identifier / MediaType / Timezone draw, part of the time, from everything the
+// validator might accept rather than from what both formats are known to spell (C03 only: there the gap
+// between the binary and the text side is the point).
+var WideNames bool
+
+var identWide = []rune{0xad, 0x200d, 0xfeff, 0x10000, 0x1d400, 0x1e900, 0xaa, 0xb5, 0x2160, 0x3007, 0x0903, 0x20e3, 0xff10, 0x1f1e6, 0x2028, 0xb2, 0xbc, 0x5f, 0x2d, 0x2e}
+
 // Identifier draws a marker / record identifier from the alphabet both formats can spell.
 func Identifier(t *rapid.T, label string, maxLen int) string {
+	if WideNames && rapid.IntRange(0, 3).Draw(t, label+".wide") == 0 {
+		n := rapid.IntRange(1, 4).Draw(t, label+".wn")
+		var buf []byte
+		for i := 0; i < n; i++ {
+			buf = utf8.AppendRune(buf, identWide[rapid.IntRange(0, len(identWide)-1).Draw(t, label+".wr")])
+		}
+		return string(buf)
+	}
 	n := rapid.IntRange(1, maxLen).Draw(t, label+".n")
 	buf := make([]byte, 0, n)
 	for i := 0; i < n; i++ {
@@ -321,6 +336,10 @@ const mediaNext = "abzAZ09!#$%&'*+.^_`|~{}-"
 
 // MediaType draws from the MEDIA_TYPE fragment of the CTE lexer.
 func MediaType(t *rapid.T, label string) string {
+	if WideNames && rapid.IntRange(0, 3).Draw(t, label+".wide") == 0 {
+		return rapid.SampledFrom([]string{"a b/c", "é/x", "a/b c", "/", "a/", "/b", "text/plain; charset=utf-8", "a", "", "A/B", "a//b", "a/b/c", "0a/b", "a/b\"", "a/b[", "a/b]",
+			"a/\n", "a/b\\", "application/x.тип", "a/@", "a/b,c", "a/b=c", "a/(b)", "a/<b>", "a/b?", "a/b:c", "a/b;c", "-a/b", "a/b\x00"}).Draw(t, label+".w")
+	}
 	if rapid.IntRange(0, 2).Draw(t, label+".common") == 0 {
 		return rapid.SampledFrom([]string{"text/plain", "application/x-sh", "image/png", "a/b", "application/vnd.api+json"}).Draw(t, label+".c")
 	}
@@ -360,6 +379,10 @@ func Timezone(t *rapid.T, label string) compact_time.Timezone {
 	case 1:
 		return compact_time.TZLocal()
 	case 2:
+		if WideNames && rapid.IntRange(0, 3).Draw(t, label+".wide") == 0 {
+			return compact_time.TZAtAreaLocation(rapid.SampledFrom([]string{"europe/berlin", "Europe/Zürich", "A b", "1/2", "E/Paris/", "Europe/Berlin ", "a", "Éire", "A/b\"c", "A\n", "A/[b]",
+				"A/b,c", "A/b:c", "A//b", "/A", "Asia/Ho_Chi_Minh", "America/Port-au-Prince", "A/b@c", "Etc/GMT-14", "M/a", "A/" + string(make([]byte, 0)) + "b~"}).Draw(t, label+".warea"))
+		}
 		if rapid.IntRange(0, 2).Draw(t, label+".rnd") == 0 {
 			b := []byte{areaFirst[rapid.IntRange(0, len(areaFirst)-1).Draw(t, label+".af")]}
 			for i, n := 0, rapid.IntRange(0, 12).Draw(t, label+".an"); i < n; i++ {
